@@ -3,7 +3,7 @@
 From Coq Require Import List ZArith Bool.
 From Ivv Require Import Core.Kernel Core.CoreTypes Core.CoreFd Core.CoreModel Core.Monitors Core.CoreSpec
   Core.CoreRel Core.CoreCodes Core.CorePhase2AcctMon Core.CorePhase2AcctEnd Core.CorePhase2AcctK Core.CorePhase2AcctCrash
-  Core.CorePhase2AcctOwnTop.
+  Core.CorePhase2AcctOwnTop Core.CorePhase2AcctNcTop.
 Import ListNotations.
 Local Open Scope Z_scope.
 
@@ -14,14 +14,16 @@ Lemma no_code_nil tr : no_code [] tr.
 Proof. intros x _ []. Qed.
 
 (* iv_main returns with nothing registered unless quit (701/702), never sleeps or hangs with nothing registered (705),
-   balanced accounting at tear-down (706), a due timer / pending task forbids a blocking wait (708/710) *)
-Lemma codes_acct sc : wf_scenario sc -> no_code [701; 702; 705; 706; 708; 710] (mon_fails (run_scenario sc)).
+   balanced accounting at tear-down (706), a wait that reports a user descriptor is followed by a callback (707), a due timer / pending task forbids a blocking
+   wait (708/710) *)
+Lemma codes_acct sc : wf_scenario sc -> no_code [701; 702; 705; 706; 707; 708; 710] (mon_fails (run_scenario sc)).
 Proof.
   intros Hwf.
   apply no_code_cons; [exact (core_code_701 sc Hwf)|].
   apply no_code_cons; [exact (core_code_702 sc Hwf)|].
   apply no_code_cons; [exact (core_code_705 sc Hwf)|].
   apply no_code_cons; [exact (core_code_706 sc Hwf)|].
+  apply no_code_cons; [exact (core_code_707 sc Hwf)|].
   apply no_code_cons; [exact (core_code_708 sc Hwf)|].
   apply no_code_cons; [exact (core_code_710 sc Hwf)|].
   apply no_code_nil.
